@@ -193,6 +193,10 @@ def simp(t):
                 return ("cmp", "<=", x[3], x[2])
             if x[1] == "<=":
                 return ("cmp", "<", x[3], x[2])
+        import os as _os
+        if x[0] in ("and", "or") and not _os.environ.get("SA_NODEMORGAN"):
+            # De Morgan: the negation goes to the atoms, so `not (a != 0 or not b)` and `a == 0 and b` are one term
+            return simp(("or" if x[0] == "and" else "and", tuple(simp(("not", y)) for y in x[1])))
         return t
     if h in ("and", "or"):
         items = []
@@ -228,6 +232,10 @@ def simp(t):
         if op in ("==", "!=") and key(a) > key(b):
             a, b = b, a
             t = ("cmp", op, a, b)
+        if op in ("in", "notin") and is_const(a) and b[0] in ("tup", "list") and all(is_const(x) for x in b[1]) \
+                and all(isinstance(x[1], (str, int, float, type(None))) for x in b[1] + (a,)):
+            hit = any(x[1] == a[1] for x in b[1])
+            return C(hit if op == "in" else not hit)
         if op in ("is", "isnot") and is_const(a) and is_const(b) and (a[1] is None or b[1] is None):
             same = a[1] is None and b[1] is None
             return C(same if op == "is" else not same)
@@ -263,6 +271,9 @@ def simp(t):
         if base[0] == "call" and base[1] in ("tuple", "list") and len(base[2]) == 1 and not base[3] and is_const(i) and isinstance(i[1], int) \
                 and base[2][0][0] in ("slice", "mcall", "call", "v", "res", "tup", "list"):
             return simp(("idx", base[2][0], i))            # tuple(s)[k] == s[k]
+        if base[0] == "slice" and is_const(i) and isinstance(i[1], int) and not isinstance(i[1], bool) and i[1] >= 0 and is_const(base[2]) \
+                and isinstance(base[2][1], int) and not isinstance(base[2][1], bool) and base[2][1] > 0 and base[3] == C(None) and base[4] in (C(None), C(1)):
+            return simp(("idx", base[1], C(base[2][1] + i[1])))          # s[a:][k] == s[a + k]
         if base[0] == "slice" and is_const(i) and isinstance(i[1], int) and not isinstance(i[1], bool) and i[1] >= 0 and base[2] in (C(None), C(0)) \
                 and base[4] in (C(None), C(1)) and is_const(base[3]) and isinstance(base[3][1], int) and i[1] < base[3][1]:
             return simp(("idx", base[1], i))               # s[:n][k] == s[k] for 0 <= k < n (both fail alike when s is shorter)
@@ -463,11 +474,18 @@ def path_simp(t, depth=0):
 
 def assume_deep(t, c, val):
     """Like assume(), but rewrites everywhere inside t (call arguments, lists, ...)."""
+    import os as _os
+    nc = simp(("not", c)) if (c[0] == "cmp" and not _os.environ.get("SA_NONEG")) else None       # the negation of a comparison is a comparison (`not a < b` is `b <= a`)
+
     def f(x):
         if x == c:
             return TRUE if val else FALSE
+        if nc is not None and x == nc:
+            return FALSE if val else TRUE
         if x[0] == "ite" and x[1] == c:
             return assume_deep(x[2] if val else x[3], c, val)
+        if nc is not None and x[0] == "ite" and x[1] == nc:
+            return assume_deep(x[3] if val else x[2], c, val)
         if x[0] == "not" and x[1] == c:
             return FALSE if val else TRUE
         return None
@@ -739,8 +757,8 @@ class SymX:
             if out.env.get("$returned", FALSE) == FALSE:
                 out.env["$returned"], out.env["$ret"], out.dead = saved
             return out
-        if len(s.handlers) != 1 or s.orelse:
-            raise Unsupported("try statement with %d handlers / else (%s)" % (len(s.handlers), f.where(s)))
+        if len(s.handlers) != 1:
+            raise Unsupported("try statement with %d handlers (%s)" % (len(s.handlers), f.where(s)))
         h = s.handlers[0]
         tid = next(self._ids)
         split = len(s.body)
@@ -750,7 +768,7 @@ class SymX:
                 split = i
                 break
         pre = self.block(s.body[:split], st.copy(), f, depth)
-        body = self.block(s.body[split:], pre.copy(), f, depth)
+        body = self.block(s.body[split:] + list(s.orelse), pre.copy(), f, depth)      # `else:` continues the path on which nothing was raised
         hst = pre.copy()
         if h.name:
             hst.env[h.name] = ("exc", tid)
@@ -1290,6 +1308,8 @@ class SymX:
                 return simp(("slice", base, lo, hi, stp))
             i = ev(e.slice)
             return self._subscript(base, i)
+        if isinstance(e, ast.List) and len(e.elts) == 1 and isinstance(e.elts[0], ast.Starred):
+            return simp(("call", "list", (ev(e.elts[0].value),), ()))        # [*xs] is list(xs)
         if isinstance(e, ast.Tuple):
             return ("tup", tuple(ev(x) for x in e.elts))
         if isinstance(e, ast.List):
@@ -1377,6 +1397,8 @@ class SymX:
                     merged.append(p_)
             if len(merged) == 1 and is_const(merged[0]):
                 return merged[0]
+            if len(merged) == 1 and merged[0][0] == "fmt" and merged[0][2] == -1 and not merged[0][3]:
+                return simp(("call", "str", (merged[0][1],), ()))          # f"{x}" is str(x) (format(x, "") for the numbers and strings met here)
             return ("fstr", tuple(merged))
         if isinstance(e, ast.Call):
             return self.call(e, st, f, depth)
@@ -1407,6 +1429,18 @@ class SymX:
                     out = simp(("strcat", out, C("/")))
                 out = simp(("strcat", out, a))
             return out
+        if name == "next" and 1 <= len(args) <= 2 and not kws and args[0][0] == "compr" and args[0][1] in self.loops:
+            # next(<generator over a short literal table> [, default]): the first entry that passes the filter, written as a chain
+            # of choices (`next((cls for kind, cls in TABLE if kind == player), None)`)
+            L = self.loops[args[0][1]]
+            if L.source[0] in ("tup", "list") and len(L.source[1]) <= 8 and L.whole and not L.inner and L.elt is not None and not L.enumerated and len(args) == 2:
+                el = ("elem", L.id)
+                out = args[1]
+                for item in reversed(L.source[1]):
+                    cond = deep_simp(subst(mk_and(*L.filters) if L.filters else TRUE, lambda x: item if x == el else None))
+                    val = deep_simp(subst(L.elt, lambda x: item if x == el else None))
+                    out = simp(("ite", cond, val, out))
+                return out
         if name in ("map", "filter") and len(c.args) == 2 and not c.keywords and not any(isinstance(a, ast.Starred) for a in c.args):
             r = self._map_as_comprehension(c, name, st, f, depth)
             if r is not None:
@@ -1799,10 +1833,55 @@ def strip_filter(loop, updates):
     return (mk_and(*filt) if filt else TRUE), updates
 
 
+def _split_compound_guards(u, loop):
+    """An update whose outer guard is a conjunction / disjunction of tests on the running value (the shape a `continue` in the
+    middle of an if / elif chain leaves: `ite(not better and different, acc, ...)`) is split on the improvement test first, so
+    that it reads `ite(better, ..., ite(tie, ..., acc))` again."""
+    if not (isinstance(u, tuple) and u and u[0] == "ite" and u[1][0] in ("and", "or")):
+        return u
+    if not (u[1][0] == "and" and u[2][0] == "acc" and u[2][1] == loop.id):
+        return u            # not `skip this element when neither better nor equal`: some other construction (a seed test, a tolerance
+                            # test, a tie-first chain) that the recognisers know in its own shape
+    guards = []
+
+    def walk(x):
+        if isinstance(x, tuple) and x:
+            if x[0] == "ite":
+                guards.append(x[1])
+            for y in x:
+                walk(y)
+    walk(u)
+    atoms = []
+    for g in guards:
+        for a in (g[1] if g[0] in ("and", "or") else (g,)):
+            if a[0] == "cmp" and a[1] in ("<", "<=") and mentions_acc(a, loop.id):
+                for cand in (a, simp(("not", a))):
+                    if cand[1] == "<" and cand not in atoms:
+                        atoms.append(cand)
+    for A in atoms:
+        u2 = path_simp(("ite", A, deep_simp(assume_deep(u, A, True)), deep_simp(assume_deep(u, A, False))))
+        gs = []
+
+        def walk2(x):
+            if isinstance(x, tuple) and x:
+                if x[0] == "ite":
+                    gs.append(x[1])
+                for y in x:
+                    walk2(y)
+        walk2(u2)
+        if u2[0] == "ite" and u2[1] == A and not any(g[0] in ("and", "or") for g in gs):
+            # the tie test with the positive comparison first: `acc if k != best else acc ++ [l]` is `acc ++ [l] if k == best else acc`
+            return subst(u2, lambda x: ("ite", ("cmp", "==", x[1][2], x[1][3]), x[3], x[2]) if x[0] == "ite" and x[1][0] == "cmp" and x[1][1] == "!=" else None)
+    return u
+
+
 def classify(loop):
     """{var: Fold} for a for-loop; loop.filter is set to the accumulator-free guard of the whole body."""
     F, ups = strip_filter(loop, dict(loop.update))
     loop.filter = F
+    import os as _os
+    if not _os.environ.get("SA_NOSPLIT"):
+        ups = {v0: _split_compound_guards(u0, loop) for v0, u0 in ups.items()}
     # a seed test that cannot hold: `if best is None or e >= best` with best started from a number (a `bound=0` handed to a shared
     # helper whose other callers pass None) - the accumulator is only ever the seed or an element's key, never None.  The same
     # condition guards the companions of `best` (the arg variable): it is rewritten wherever it occurs
